@@ -11,23 +11,24 @@ ID = "C05"
 TAG = cc.TAG
 EXTRACT = cc.EXTRACT
 DRIVER = cc.DRIVER
-COQ_FILES = ["FA/Proofs/CaptureProofs.v", "FA/Proofs/CaptureSem.v", "FA/Properties/C05.v"]
+COQ_FILES = ["FA/Proofs/CaptureProofs.v", "FA/Proofs/CaptureSem.v", "FA/Proofs/CaptureGen.v", "FA/Properties/C05.v"]
 
 LEVEL = ("Coq theorems over the executable model of _rewrite_captured_vars.visit_Name/visit_Call + _resolve_called_lambdas "
-         "(Model/Capture.v, mirroring the code with fixes F06, F07, FC2, FC4, FC5, FC6 applied): inline_leaves_by_name (a call of a captured "
-         "callable whose source is not a single-return function stays `Call (Name h) ...` with rewritten arguments), "
-         "inline_sem (on the first-order fragment of Base/Eval.v, resolving called lambdas preserves the value Python's "
-         "call semantics gives - positional binding, call by value - on a fragment where binders may stay inside an inlined body only when "
-         "the call's arguments are constants; the general case is decided by FC4's bail-out and covered by correspondence + oracle), Examples for a "
-         "parameter-only body, nested helpers and keyword calls.  Model tied to the code by exact comparison on generated "
-         "Python programs; the oracle compares the recorded lambda's value with the real Python callable's.")
+         "(Model/Capture.v, mirroring the code incl. fixes F06, F07, FC2, FC4-FC6): inline_sem_partial - for EVERY expression "
+         "tree, backend and environment, resolving called lambdas preserves the value Python's call semantics gives, with no "
+         "hygiene hypothesis (the proof uses the implementation's own bail-out test and the coincidence lemma EvalAgree.v); "
+         "the one hypothesis, first_order, is the declared limit of the reference semantics (a lambda parameter is not itself "
+         "called); inline_sem_stack (the invariant for arbitrary argument-map stacks); inline_leaves_by_name; Examples for "
+         "parameter-only bodies, shadowing, bail-out, helpers of helpers.  Model tied to the code by exact comparison on "
+         "generated Python programs (incl. higher-order helpers); the oracle compares the recorded lambda's value with the "
+         "real Python callable's.")
 TRUSTED = c04_trusted = ["Coq 8.16.1 kernel (coqc); no axioms (Print Assumptions: closed under the global context)",
                          "extraction: ExtrOcamlBasic + ExtrOcamlNativeString; ocaml/driver_capture.ml + ocaml/sx.ml codecs",
                          "harness/bridge.py ast<->expr encoding; harness/props/capture_common.py program generator, snapshot construction, oracles",
                          "inputs of the model, validated by correspondence only: inspect.getclosurevars / f.__globals__ snapshot; "
                          "whether the source of a captured callable is recovered as a Lambda (source recovery, C03)"]
 ASSUME = ["the helper's Lambda (rewrite_func_as_lambda of its source) is an input of the model, built by the generator from the helper's own text",
-          "inline_sem: first-order fragment; fragment restriction stated in the theorem; no open findings",
+          "inline_sem: parameters that are themselves called (higher-order helpers) are outside the reference semantics: correspondence + oracle only",
           "lambdas/helpers with non-positional parameter kinds are outside the model (oracle only)"]
 RULE = ("generated Python programs: every single-return helper body of a typed grammar up to size 5 x parameter lists of length 1-3 "
         "(names overlapping the lambda's) x call shapes (positional, keyword, reordered, mixed) x arguments (incl. names bound inside "
